@@ -28,8 +28,10 @@ add("C03", "other",
     "accumulated once, into block (y_rem+i)//s at window offset (y_rem+i)%s, |y|^p of the inverse transform of X*filter), _compute_frame (frame "
     "= first window half on the oldest block + second half on the next, log-floored; blocks shift by one), the transform helpers (DFT-size "
     "points, double precision for every floating input dtype, complex128), and - under the property's hypothesis s < one-sided support - that "
-    "compute_full returns (N + s//2)//s frames. Assumed: numpy.fft is the DFT and the last D-M+1 outputs of a D-point circular convolution are "
-    "linear-convolution values (A-FFT); the constructor's geometry. The numeric agreement with a direct-convolution oracle over banks x styles x "
+    "compute_full returns (N + s//2)//s frames; the constructor's geometry, support and filter slices (filter i is _compute_dft of the impulse "
+    "response rolled by _translation - centre_i (centered) or _translation (causal) and clamped to the longest support; the energy channel's "
+    "filter is the transform of a unit impulse at _translation). Assumed: numpy.fft is the DFT and the last D-M+1 outputs of a D-point circular convolution are "
+    "linear-convolution values (A-FFT). The numeric agreement with a direct-convolution oracle over banks x styles x "
     "flags x dtypes x lengths is bounded." + MIX, TB)
 add("C04", "other",
     "Proved: STFT finalize resets every per-utterance attribute to the constructor's value (constants read from __init__), the fresh state satisfies the "
